@@ -160,7 +160,7 @@ def _lookup_atom(ctx, tb, name, tid):
 
 
 # ------------------------------------------------------------------------------------------------ attenuation
-def _mu_event(ctx, tid, sp, n, n_unit_len, lam, lam_unit, sig_s, sig_a, sig_unit_m2, small=None):
+def _mu_event(ctx, tid, sp, n, n_unit_len, lam, lam_unit, sig_s, sig_a, sig_unit_m2, small=None, as_int=False):
     """n: Fraction in 1/<n_unit_len>^3; lam: Fraction in lam_unit; sig_*: Fractions in units of sig_unit_m2 m^2."""
     import scipp as sc
     from scippneutron.absorption import Material
@@ -177,7 +177,10 @@ def _mu_event(ctx, tid, sp, n, n_unit_len, lam, lam_unit, sig_s, sig_a, sig_unit
     info = {'n': f'{nf} 1/{n_unit_len}^3', 'lambda': f'{lf} {lam_unit}', 'want_per_m': float(want), 'want_exact': want}
     try:
         mat = Material(sp, sc.scalar(nf, unit=f'1/{n_unit_len}**3'))
-        got = mat.attenuation_coefficient(sc.scalar(lf, unit=lam_unit))
+        # an integer-valued wavelength may be handed over with an integer dtype: the number is the same
+        wl = sc.scalar(int(lf), unit=lam_unit, dtype='int64') if as_int and lf.is_integer() else sc.scalar(lf, unit=lam_unit)
+        info['wavelength_dtype'] = str(wl.dtype)
+        got = mat.attenuation_coefficient(wl)
     except Exception as e:  # noqa: BLE001
         ev['raised'] = True
         info['exc'] = repr(e)[:200]
@@ -190,7 +193,10 @@ def _mu_event(ctx, tid, sp, n, n_unit_len, lam, lam_unit, sig_s, sig_a, sig_unit
         info['exc'] = repr(e)[:200]
         return ev, info
     info['got_per_m'] = g
-    if want == 0:
+    import math
+    if not math.isfinite(g):
+        ev['rel_ok'] = False
+    elif want == 0:
         ev['rel_ok'] = g == 0.0
     else:
         ev['rel_ok'] = bool(abs(F(g) - want) <= abs(want) * F(1, 10**14))
@@ -330,6 +336,14 @@ def run(ctx):
             add(ev, info)
             n_mu += 1
             ctx.case(nontrivial_id=('mu', r['name'], lam_unit, n_unit))
+        # integer-typed wavelengths (2 angstrom, 1 nm, 180 pm, ...): same law
+        lam_unit, lam_i = ctx.rng.choice([('angstrom', 1), ('angstrom', 2), ('angstrom', 6), ('nm', 1), ('nm', 2), ('pm', 180), ('pm', 250)])
+        ev, info = _mu_event(ctx, len(events), sp, F(0.0722), 'angstrom', F(lam_i), lam_unit, A.dec(r['f'][12]), A.dec(r['f'][14]),
+                             F(1, 10**28), as_int=True)
+        info.update(isotope=r['name'])
+        add(ev, info)
+        n_mu += 1
+        ctx.case(nontrivial_id=('mu-int', r['name'], lam_unit, lam_i))
     ctx.extra['attenuation_cases'] = n_mu
 
     for kind in ('scat', 'atom', 'mu'):
